@@ -58,7 +58,7 @@ def gen_cfg(rng, t, root):
     def some_dir_patterns():
         pats = []
         for _ in range(rng.choice([1, 1, 2, 3])):
-            k = rng.choice(["lit", "lit", "glob*", "**", "sub/**", "missing", "file", "abs", "absroot", "?"])
+            k = rng.choice(["lit", "lit", "glob*", "**", "sub/**", "missing", "file", "abs", "absroot", "?", "dot"])
             if k == "lit" and dirs:
                 pats.append(rng.choice(dirs))
             elif k == "glob*":
@@ -77,6 +77,8 @@ def gen_cfg(rng, t, root):
                 pats.append(root)
             elif k == "?":
                 pats.append("su?")
+            elif k == "dot":
+                pats.append(rng.choice([".", "./"] + (["./" + rng.choice(dirs)] if dirs else [])))
         return pats
     if rng.random() < 0.55:
         pats = some_dir_patterns()
@@ -149,11 +151,13 @@ def oracle_glob(t, pattern, root):
         if rel == ".":
             return [""]
         pattern = rel
+    if pattern in (".", "./"):
+        return [""]           # a pattern without any component names the root itself
     dirs_only = pattern.endswith("/") and pattern.strip("/") != ""
     if dirs_only:
         # a trailing separator: the pattern matches directories only
         return [p for p in oracle_glob(t, pattern.rstrip("/"), root) if p == "" or dict(t).get(p) == "D"]
-    segs = pattern.split("/")
+    segs = [x for x in pattern.split("/") if x != "."]
     entries = dict(t)
     entries[""] = "D"
 
@@ -329,7 +333,8 @@ def fixed_cases():
             {"excl_paths": ["sub"]}, {"incl_suffixes": [".inc"]}, {"excl_suffixes": ["_tmp.f90"]}, {"source_dirs": ["<ROOT>"]},
             {"source_dirs": ["sub", "nope"], "excl_paths": ["sub/x.F"]}, {"excl_paths": ["**/*.f90"]},
             {"source_dirs": ["sub/*"]}, {"source_dirs": ["*/*"]}, {"excl_paths": ["skip/**"]}, {"excl_paths": ["*/.*"]},
-            {"excl_paths": ["s*/"]}, {"excl_paths": ["sub/x*/", "*/"]}]
+            {"excl_paths": ["s*/"]}, {"excl_paths": ["sub/x*/", "*/"]}, {"source_dirs": ["."]}, {"source_dirs": ["./", "sub"]},
+            {"source_dirs": ["./sub", "."], "excl_paths": ["./skip"]}]
     return [(t, c) for c in cfgs]
 
 
